@@ -335,7 +335,12 @@ pub fn guided_lt_msg(rng: &mut impl Rng, d: &Driver) -> MsgSpec {
     if state == "First" {
         match r(100) {
             0..=74 => mk(3, 401, "none", challenge(&mut r)),
-            75..=84 => mk(2, 0, "none", json!({})),
+            75..=82 => mk(2, 0, "none", json!({})),
+            83..=84 => {
+                let mut c = challenge(&mut r);
+                c["as_indication"] = json!(true);
+                mk(3, 401, "none", c)
+            }
             _ => mk(3, 438, "none", json!({"nonce":"fresh","realm":"ok"})),
         }
     } else {
@@ -352,7 +357,16 @@ pub fn guided_lt_msg(rng: &mut impl Rng, d: &Driver) -> MsgSpec {
             77..=82 => mk(2, 0, if good == "sha" { "mi" } else { "sha" }, json!({})),
             83..=88 => mk(2, 0, if good == "sha" { "sha_bad" } else { "mi_bad" }, json!({})),
             89..=93 => mk(2, 0, if good == "sha" { "sha_otherpw" } else { "mi_otherpw" }, json!({})),
-            94 => mk(2, 0, "both", json!({})),
+            94 => {
+                if r(2) == 0 {
+                    mk(2, 0, "both", json!({}))
+                } else {
+                    // an indication shaped like a challenge (401 / 438 with REALM, NONCE, algorithms)
+                    let mut c = challenge(&mut r);
+                    c["as_indication"] = json!(true);
+                    mk(3, if r(3) == 0 { 438 } else { 401 }, if r(2) == 0 { "none" } else { good }, c)
+                }
+            }
             // stale-nonce / challenge replies whose only integrity attribute is of the kind NOT in force,
             // or keyed with another password
             95 => {
